@@ -16,7 +16,7 @@ Std(nm, dest, p) == EncGearStd(RowOf(Gear102, nm), dest, p)
 Asc(s) == \A j \in 1..(Len(s) - 1) : s[j] < s[j + 1]
 DTLists == {s \in UNION {[1..n -> DTUniverse] : n \in 0..3} : Asc(s)}
 
-Unit(dts, groups, short) == [short |-> short, rand |-> 0, init |-> "DISABLED", storeOK |-> TRUE,
+Unit(dts, groups, short) == [short |-> short, rand |-> 0, init |-> "DISABLED", storeOK |-> TRUE, stuckdel |-> FALSE,
                              groups |-> groups, dts |-> dts, dtpos |-> 0]
 
 Dests == {<<"gshort", 3>>, <<"ggroup", 1>>, <<"gbcast", 0>>}
